@@ -167,7 +167,22 @@ func ParseContracts(path string) (*Contracts, error) {
 				return nil, fmt.Errorf("%s:%d: %s needs NAME: EXPR", path, it.line, word)
 			}
 			cl := c.newClause(word, rest[i+1:], it.line)
-			cl.Label = strings.TrimSpace(rest[:i])
+			hd := strings.Fields(rest[:i])
+			if len(hd) == 0 {
+				return nil, fmt.Errorf("%s:%d: %s needs a name", path, it.line, word)
+			}
+			cl.Label = hd[0]
+			// lemma NAME props C16 C13 tier B: EXPR
+			for k := 1; k < len(hd); k++ {
+				if hd[k] == "props" || hd[k] == "tier" {
+					continue
+				}
+				if hd[k] == "A" || hd[k] == "B" {
+					cl.Loop = hd[k] // tier stored in Loop for lemmas
+					continue
+				}
+				cl.Props = append(cl.Props, hd[k])
+			}
 			if word == "axiom" {
 				c.Axioms = append(c.Axioms, cl)
 			} else {
